@@ -113,6 +113,13 @@ def run_walk(rng, name, cfg, objs, focus, n_agents, n_steps, perturb, resets, se
                 dt = set(real[:2]) if anchored else {("User1", "DataFromServer1", 0, ""), ("Start", "Data", 0, "")}
                 if dt:
                     sp["data"] = {h: dt}
+            if focus == "C12" and own and "data" not in sp and rng.random() < 0.5:
+                # C12 does not ask the start position to be anchored: data the role is configured to know from the start on a
+                # host that holds none of its own (the usual exfiltration target) - what others put there later must reach this
+                # agent through FindData only
+                empty_hosts = [h for h in own if not T0["data"].get(T0["ip2host"][h])]
+                if empty_hosts:
+                    sp["data"] = {rng.choice(empty_hosts): {("Operator", "Toolkit", 0, "")}}
             return sp
 
         starts = [gen_start() for _ in range(n_agents)]
@@ -121,6 +128,11 @@ def run_walk(rng, name, cfg, objs, focus, n_agents, n_steps, perturb, resets, se
             with_data = [i for i in all_ips if T0["data"].get(T0["ip2host"][i])]
             common = rng.sample(with_data, min(len(with_data), 3)) + rng.sample(all_ips, min(len(all_ips), 2))
             starts = [{"nets": [], "hosts": [], "ctrl": list(dict.fromkeys(common))} for _ in range(n_agents)]
+            if focus == "C12" and rng.random() < 0.6:
+                empty_common = [h for h in dict.fromkeys(common) if not T0["data"].get(T0["ip2host"][h])]
+                if empty_common:
+                    for st_ in starts:
+                        st_["data"] = {empty_common[0]: {("Operator", "Toolkit", 0, "")}}
         views = []
         for ag in range(n_agents):
             gs = init_agent(ag, starts[ag])
